@@ -542,7 +542,29 @@ func histEngines() map[string]func(g *gate) search.Search {
 }
 
 func searchOnce(kind string, seed int64, start string, moves []string, depth int) string {
-	s := histEngines()[kind](&gate{})
+	return searchWith(histEngines()[kind](&gate{}), seed, start, moves, depth)
+}
+
+// finalFEN is the FEN of the position reached by the moves (the same diagram and clocks, but no history).
+func finalFEN(start string, moves []string) string {
+	p, turn, np, fm, err := fen.Decode(start)
+	if err != nil {
+		return start
+	}
+	b := board.NewBoard(board.NewZobristTable(0), p, turn, np, fm)
+	for _, mv := range moves {
+		for _, m := range b.Position().PseudoLegalMoves(b.Turn()) {
+			if moveUci(m) == strings.TrimPrefix(mv, "m:") {
+				b.PushMove(m)
+				break
+			}
+		}
+	}
+	return fen.Encode(b.Position(), b.Turn(), b.NoProgress(), b.FullMoves())
+}
+
+// searchWith runs one search on the given search object (which may have been used before).
+func searchWith(s search.Search, seed int64, start string, moves []string, depth int) string {
 	p, turn, np, fm, err := fen.Decode(start)
 	if err != nil {
 		return "err"
@@ -591,6 +613,24 @@ func init() {
 		searchOnce(kind, 0, fen.Initial, nil, 2)
 		if got := searchOnce(kind, 0, start, moves, depth); got != ref {
 			return "MISMATCH after-other-search"
+		}
+		// the SAME search object (one per engine in the binaries) used before: on another game, and on the same diagram
+		// reached without the history (set up from its FEN) - state captured for an earlier search must not leak
+		bare := finalFEN(start, moves)
+		refBare := searchOnce(kind, 0, bare, nil, depth)
+		so := histEngines()[kind](&gate{})
+		searchWith(so, 0, fen.Initial, []string{"m:g1f3"}, 1)
+		if got := searchWith(so, 0, bare, nil, depth); got != refBare {
+			return "MISMATCH same-object bare-after-other"
+		}
+		if got := searchWith(so, 0, start, moves, depth); got != ref {
+			return "MISMATCH same-object game-after-its-bare-diagram"
+		}
+		if got := searchWith(so, 0, bare, nil, depth); got != refBare {
+			return "MISMATCH same-object bare-diagram-after-its-game"
+		}
+		if got := searchWith(so, 1, start, moves, depth); got != ref {
+			return "MISMATCH same-object repeated"
 		}
 		// alongside searches on other engines
 		var wg sync.WaitGroup
@@ -761,8 +801,35 @@ func init() {
 			}
 			return strings.Join(outs, "|")
 		}
-		if x, y := run(), run(); x != y {
+		solo := run()
+		if y := run(); solo != y {
 			return "MISMATCH same seed, different answers"
+		}
+		// several engines alive at once, used in turn: each must answer as it does alone (the noise source is per engine)
+		ctx := context.Background()
+		mk := func(sd int64) *engine.Engine {
+			return engine.New(ctx, "n", "x", search.AlphaBeta{Eval: search.Leaf{Eval: eval.Material{}}}, engine.WithZobrist(sd), engine.WithOptions(engine.Options{Noise: 50}))
+		}
+		es := []*engine.Engine{mk(seed), mk(seed), mk(seed + 1)}
+		outs := make([][]string, len(es))
+		for _, mv := range append([]string{""}, a[1:]...) {
+			for k, e := range es {
+				if mv != "" && e.Move(ctx, mv) != nil {
+					return "err"
+				}
+				o2, _ := e.Analyze(ctx, searchctl.Options{DepthLimit: lang.Some(uint(2))})
+				var last search.PV
+				for pv := range o2 {
+					last = pv
+				}
+				e.Halt(ctx)
+				outs[k] = append(outs[k], fmtScore(last.Score)+pvStr(last.Moves))
+			}
+		}
+		for k := 0; k < 2; k++ {
+			if got := strings.Join(outs[k], "|"); got != solo {
+				return fmt.Sprintf("MISMATCH engine %d of 3 used in turn answers differently from the same engine alone", k)
+			}
 		}
 		return "ok"
 	})
